@@ -263,6 +263,14 @@ def tokenChar (c : Nat) : Bool :=
 
 def isToken (s : Text) : Bool := !s.isEmpty && s.all tokenChar
 
+/-- token characters in either case: MIME type, subtype and parameter NAMES are case-insensitive; the parser accepts
+upper-case letters in them and hands them back lower-cased -/
+def tokenCharU (c : Nat) : Bool := tokenChar c || (65 ≤ c && c ≤ 90)
+def isTokenU (s : Text) : Bool := !s.isEmpty && s.all tokenCharU
+def lowerC (c : Nat) : Nat := if 65 ≤ c && c ≤ 90 then c + 32 else c
+/-- `str.lower()` on a token (ASCII) -/
+def lower (s : Text) : Text := s.map lowerC
+
 /-- line boundaries of `str.splitlines()`: a header value containing one is refused by `email` -/
 def lineBreak (c : Nat) : Bool := [10, 13, 11, 12, 28, 29, 30, 0x85, 0x2028, 0x2029].contains c
 
@@ -275,7 +283,7 @@ deriving Repr, DecidableEq
 
 def spanToken : Text → Text × Text
   | [] => ([], [])
-  | c :: cs => if tokenChar c then let r := spanToken cs; (c :: r.1, r.2) else ([], c :: cs)
+  | c :: cs => if tokenCharU c then let r := spanToken cs; (c :: r.1, r.2) else ([], c :: cs)
 
 /-- body of a quoted string after the opening quote: a backslash makes the next character literal
 (`esc` = the previous character was such a backslash), an unescaped quote ends it.  Returns the value
@@ -304,7 +312,7 @@ def parseParams : Nat → Text → Option (List (Text × Text))
           | e :: q :: rest =>
             if e = chEq && q = chQuote && !nm.1.isEmpty then
               match unquote rest with
-              | some (v, rest') => (parseParams f rest').map ((nm.1, v) :: ·)
+              | some (v, rest') => (parseParams f rest').map ((lower nm.1, v) :: ·)      -- names come back lower-cased
               | none => none
             else none
           | _ => none
@@ -318,7 +326,8 @@ def charsetName : Text := [99, 104, 97, 114, 115, 101, 116]   -- "charset"
 def fixCharset (ps : List (Text × Text)) : List (Text × Text) :=
   ps.map fun p => if p.1 = charsetName then (p.1, p.2.takeWhile (· != chComma)) else p
 
-/-- `_make_content_type` on the grammar `token "/" token ("; " token "=" quoted-string)*` -/
+/-- `_make_content_type` on the grammar `token "/" token ("; " token "=" quoted-string)*`; type, subtype and parameter names
+are lower-cased, values are kept as they are -/
 def parseCT (s : Text) : Parsed :=
   if s.any lineBreak then .raised .valueError
   else
@@ -329,7 +338,7 @@ def parseCT (s : Text) : Parsed :=
         let st := spanToken r1
         if st.1.isEmpty then .unparsed
         else match parseParams st.2.length st.2 with
-          | some ps => .ok { type := t.1, subtype := st.1, params := fixCharset ps }
+          | some ps => .ok { type := lower t.1, subtype := lower st.1, params := fixCharset ps }
           | none => .unparsed
       else .unparsed
     | [] => .unparsed
@@ -382,6 +391,9 @@ inductive Input
   | stream (i : StreamIn)
   /-- `_make_content_type(repr(ct))` -/
   | ctype (ct : CT)
+  /-- the same for several content types one after the other in one process (typically a type, a variant of it that differs
+  in letter case only, and the type again): every answer is the one for that content type alone; names may be in upper case -/
+  | ctypeSeq (cts : List CT)
   | copy (init : List Bytes) (ops : List CopyOp)
 deriving Repr
 
@@ -395,6 +407,7 @@ inductive Trace
   | decode (pieces : Option (List Text)) (err : Option Exc) (whole : Option Text)
   | stream (evs : List Ev)
   | ctype (rendered : Text) (parsed : Parsed)
+  | ctypeSeq (rs : List (Text × Parsed))
   | copy (obs : List CopyObs)
 deriving Repr
 
@@ -422,11 +435,20 @@ def CT.wf (ct : CT) : Bool :=
 def StreamIn.wf (i : StreamIn) : Bool :=
   i.chunkSize ≥ 1 && (match i.seekTo with | some (_, w) => w ≤ 2 | none => true) && i.caps.all (1 ≤ ·)
 
+/-- with type, subtype and names lower-cased (values untouched): what a content type means to the parser -/
+def CT.lowered (ct : CT) : CT :=
+  { type := lower ct.type, subtype := lower ct.subtype, params := ct.params.map fun p => (lower p.1, p.2) }
+
+/-- tokens in either case, parameter names distinct as the parser sees them -/
+def CT.wfU (ct : CT) : Bool :=
+  isTokenU ct.type && isTokenU ct.subtype && ct.params.all (fun p => isTokenU p.1) && !hasDupNames ct.lowered.params
+
 def Input.wf : Input → Bool
   | .text s => s.all validCp
   | .json d => d.all validCp
   | .stream i => i.wf
   | .ctype ct => ct.wf
+  | .ctypeSeq cts => cts.all CT.wfU
   | _ => true
 
 def decodeModel (isText : Bool) (cs : Charset) (chunks : List Bytes) (whole : Option Text) : Trace :=
@@ -438,11 +460,14 @@ def decodeModel (isText : Bool) (cs : Charset) (chunks : List Bytes) (whole : Op
   if !isText then .decode none (some .valueError) r.2      -- `iter_text` refuses a non-text type
   else .decode r.1 (if r.1.isNone then some .unicodeDecodeError else none) r.2
 
-def ctypeModel (ct : CT) : Trace :=
+/-- the rendering and what parsing it gives (parameters in canonical order) -/
+def ctypePair (ct : CT) : Text × Parsed :=
   let r := render ct
-  .ctype r (match parseCT r with
+  (r, match parseCT r with
     | .ok p => .ok { p with params := sortParams p.params }
     | x => x)
+
+def ctypeModel (ct : CT) : Trace := .ctype (ctypePair ct).1 (ctypePair ct).2
 
 def model : Input → Trace
   | .eq ctA ctB a b => .eq a b (ctA == ctB && a.flatten == b.flatten)
@@ -451,6 +476,7 @@ def model : Input → Trace
   | .decode isText cs chunks whole => decodeModel isText cs chunks whole
   | .stream i => .stream (streamModel i)
   | .ctype ct => ctypeModel ct
+  | .ctypeSeq cts => .ctypeSeq (cts.map ctypePair)        -- no state: one answer per content type
   | .copy init ops => .copy (copyRun ⟨init, []⟩ ops)
 
 end TTV.Content
